@@ -254,7 +254,7 @@ pub fn run_history_property<H: HB>(prop: &'static str, tier: Tier) -> Outcome {
         // order properties: the whole mutator alphabet (conversion pulls in the other kind)
         "C01" | "C02" => (full, if q { 3 } else { 4 }, 3),
         "C03" => (full | A_BORROWED | A_PAYLOAD, 3, if q { 2 } else { 3 }),
-        "C04" => (full | A_ITER_MUT_BACK | A_ITER_MUT_FORGET | A_DRAIN_FORGET | A_CAPACITY | A_BORROWED, 3, if q { 2 } else { 3 }),
+        "C04" => (full | A_ITER_MUT_BACK | A_ITER_MUT_FORGET | A_DRAIN_FORGET | A_CAPACITY | A_BORROWED | A_EXTEND_HUGE_HINT, 3, if q { 2 } else { 3 }),
         "C11" => (A_PUSH | A_PUSH_INCDEC | A_REMOVE | A_POP | A_CHANGE, 4, 3),
         "C12" => (A_CORE | A_PAYLOAD | A_BORROWED | A_ITER_MUT | A_ITER_MUT_BACK | A_RETAIN | A_CONVERT | A_EXTEND | A_APPEND, 3, 2),
         _ => unreachable!(),
@@ -399,9 +399,9 @@ pub fn run_probe_property<H: HB>(prop: &'static str, tier: Tier) -> Outcome {
     };
     let prios: Vec<i32> = (0..m).collect();
     let mut cfg = base_cfg(prop, k, &prios, A_REACH | match prop {
-        "C16" => A_CLEAR_DRAIN | A_DRAIN_FORGET,
+        "C16" => A_CLEAR_DRAIN | A_DRAIN_FORGET | A_EXTEND,
         // sorted consumption after in-place mutation from either end
-        "C06" => A_ITER_MUT | A_ITER_MUT_BACK | A_RETAIN_MUT,
+        "C06" => A_ITER_MUT | A_ITER_MUT_BACK | A_RETAIN_MUT | A_RETAIN,
         // iterators over queues that went through the bulk paths too
         "C13" | "C09" => A_APPEND | A_RETAIN | A_EXTEND,
         _ => 0,
@@ -578,7 +578,7 @@ pub fn run_c07<H: HB>(tier: Tier) -> Outcome {
         let t0 = Instant::now();
         let (k, m) = (3u32, 3usize);
         let prios: Vec<i32> = (0..m as i32).collect();
-        let mut cfg = base_cfg(prop, k, &prios, A_REACH | A_APPEND | A_EXTEND);
+        let mut cfg = base_cfg(prop, k, &prios, A_REACH | A_APPEND | A_EXTEND | A_RETAIN | A_ITER_MUT);
         cfg.append_max = 2;
         let mut ex = Explorer::<H>::new(&cfg);
         ex.collect = Some(Default::default());
